@@ -182,6 +182,7 @@ func (x *Exec) prepPC(st *State, extra *Term) (key, script, verdict string, npc 
 		return key, "", r, len(pcs), pcs
 	}
 	p := NewPrinter(x.tf, x.cfg.Dom)
+	p.Light = true
 	script = p.Script(pcs)
 	if p.Err != nil {
 		panic(x.fault("printer: %v", p.Err))
